@@ -13,7 +13,7 @@ from simkit.runner import Outcome
 
 PROPERTY = 'C11'
 LEVEL = 'exploration'
-PLAN = {'quick': [('bo', 450)], 'thorough': [('bo', 25000)]}
+PLAN = {'quick': [('bo', 900)], 'thorough': [('bo', 25000)]}
 TIMEOUT = {'quick': 900, 'thorough': 6 * 3600}
 CHUNK = 4
 RULE = ('each run: generated 1-2 parameter model (recording simulator, smooth discrepancy), '
@@ -166,6 +166,10 @@ class BoRun:
             mon.current_bi = bi
             if batch:
                 self.overrides.append((bi, {k: np.array(v) for k, v in batch.items()}))
+                rows = sorted({len(np.atleast_1d(v)) for v in batch.values()})
+                if rows != [bo.batch_size]:
+                    out.violate('acquire-count', 'batch-rows', batch_index=bi, rows=rows,
+                                batch_size=bo.batch_size)
             if bo.batches.num_pending > 0:
                 out.probes['speculative_submit'] += 1
             try:
@@ -329,9 +333,11 @@ def run(tape, kind):
     if 'cap' in states:
         return out
     if 'error' in states:
-        out.inconclusive = True
         out.probes['raised_' + type(run_.error).__name__] += 1
         out.ev('raised %s' % str(run_.error)[:100])
+        if out.violations:
+            return out
+        out.inconclusive = True
         return out
     res = check_bo(out, run_, cfg, precomputed, spec)
     if res is None:
